@@ -20,6 +20,7 @@ class H:
         self.assumptions = assumptions or []
         self.group = group
         self.solver = solver
+        self.attrs = []               # extra attribute lines, e.g. further #[kani::stub(..)]
         self.slice = None             # cargo feature list (no default features) or None = default features
         self.path = None              # fully qualified kani harness name, filled in by the driver
         self.pkg = None
@@ -35,6 +36,13 @@ def render(h, stub_path):
     if h.solver:
         attrs.append("#[kani::solver(%s)]" % h.solver)
     attrs.append("#[kani::stub(::std::fmt::format, %s)]" % stub_path)
+    # (only for harnesses that must continue after an error value has been built: h.stub_loc)
+    # MechError::with_compiler_loc is #[track_caller] and reads std::panic::Location::caller(), which Kani does not support;
+    # the recorded source location of an error is not the subject of any property
+    core_path = "crate" if (isinstance(h.where, tuple) and h.where[0] == "core") else "mech_core"
+    if getattr(h, "stub_loc", False):
+        attrs.append("#[kani::stub(%s::MechError::with_compiler_loc, verif_stub_loc)]" % core_path)
+    attrs.extend(getattr(h, "attrs", []))
     return "\n".join(attrs) + "\npub fn %s() {\n%s\n}\n" % (h.name, h.text)
 
 
@@ -44,5 +52,6 @@ def module_text(prop, harnesses, prelude="", extra=""):
     for h in harnesses:
         body += render(h, "verif_stub_format") + "\n"
     return ("#[allow(warnings)]\npub mod verif_%s {\n  use super::*;\n  use std::mem::forget;\n"
-            "  pub fn verif_stub_format(_a: std::fmt::Arguments<'_>) -> String { String::new() }\n%s\n%s\n}\n"
+            "  pub fn verif_stub_format(_a: std::fmt::Arguments<'_>) -> String { String::new() }\n"
+            "  pub fn verif_stub_loc(e: MechError) -> MechError { e }\n%s\n%s\n}\n"
             % (prop.lower(), body, extra))
